@@ -3,6 +3,7 @@ package main
 import (
 	"fmt"
 	"go/token"
+	"go/types"
 	"sort"
 	"strings"
 
@@ -121,7 +122,84 @@ func errGlobalOf(v ssa.Value) string {
 	return ""
 }
 
+// isHoldsTest: v is `tablePos() < len(<txn>.tableEntries)` (or the mirrored form), inline or as the
+// single result of a helper.
+func isHoldsTest(c *Ctx, v ssa.Value, depth int) bool {
+	switch x := v.(type) {
+	case *ssa.BinOp:
+		l, rr := x.X, x.Y
+		if x.Op == token.GTR {
+			l, rr = rr, l
+		} else if x.Op != token.LSS {
+			return false
+		}
+		lc, ok := l.(*ssa.Call)
+		if !ok || !lc.Call.IsInvoke() || lc.Call.Method.Name() != "tablePos" {
+			return false
+		}
+		rc, ok := rr.(*ssa.Call)
+		if !ok {
+			return false
+		}
+		if b, ok := rc.Call.Value.(*ssa.Builtin); !ok || b.Name() != "len" {
+			return false
+		}
+		_, ok = loadOfField(rc.Call.Args[0], "writeTxnState", "tableEntries")
+		return ok
+	case *ssa.Call:
+		if depth > 1 {
+			return false
+		}
+		if f := staticCallee(x); f != nil {
+			rets := returnsOf(f)
+			if len(rets) == 1 && len(rets[0].Results) == 1 {
+				return isHoldsTest(c, rets[0].Results[0], depth+1)
+			}
+		}
+	}
+	return false
+}
+
 func ruleGuardErrors(c *Ctx, r *Reporter) {
+	// a table registered after WriteTxn() has no entry in the transaction: the position is
+	// compared with len(txn.tableEntries) before it is used as an index, and the not-held case
+	// returns ErrTableNotLockedForWriting
+	for _, name := range []string{"modify", "delete", "addDeleteTracker", "indexWriteTxn"} {
+		fn := c.Func("statedb", "writeTxnState", name)
+		if fn == nil {
+			r.anchorMissing("statedb.(writeTxnState)." + name)
+			continue
+		}
+		e := entryOf(fn)
+		if e == nil {
+			r.anchorMissing(c.fnName(fn) + ": table entry lookup")
+			continue
+		}
+		bounded, okErr := false, false
+		for _, f := range factsAt(e.(*ssa.UnOp).Block()) {
+			cond, val := stripNot(f.Cond, f.Val)
+			if val && isHoldsTest(c, cond, 0) {
+				bounded = true
+				// the other edge returns the documented error
+				for _, ia := range allInstrs(fn) {
+					iff, ok := ia.In.(*ssa.If)
+					if !ok || iff.Cond != f.Cond {
+						continue
+					}
+					other := iff.Block().Succs[1]
+					if !f.Val {
+						other = iff.Block().Succs[0]
+					}
+					if ret, ok := other.Instrs[len(other.Instrs)-1].(*ssa.Return); ok {
+						if errGlobalOf(ret.Results[len(ret.Results)-1]) == "ErrTableNotLockedForWriting" {
+							okErr = true
+						}
+					}
+				}
+			}
+		}
+		r.check(bounded && okErr, c.fnName(fn)+"|table not part of the transaction", c.posStr(instrPos(e.(*ssa.UnOp))), "tablePos() < len(txn.tableEntries) is established before indexing; otherwise ErrTableNotLockedForWriting", "txn.tableEntries is indexed with the table's position without comparing it with the length: a write to a table registered after WriteTxn() panics (index out of range) instead of returning ErrTableNotLockedForWriting")
+	}
 	for _, name := range []string{"modify", "delete", "addDeleteTracker"} {
 		fn := c.Func("statedb", "writeTxnState", name)
 		if fn == nil {
@@ -298,6 +376,32 @@ type pathEnd struct {
 }
 
 func ruleRevert(c *Ctx, r *Reporter) {
+	// the public compare-and-* entry points hand the caller's revision on as it is: no value of it
+	// is singled out (compared with a constant) on the way to the write primitive
+	for _, spec := range [][2]string{{"genTable", "CompareAndSwap"}, {"genTable", "CompareAndDelete"}, {"", "guardWith"}} {
+		fn := c.Func("statedb", spec[0], spec[1])
+		if fn == nil {
+			if spec[1] != "guardWith" {
+				r.anchorMissing("statedb." + spec[1])
+			}
+			continue
+		}
+		bad := ""
+		for _, ia := range allInstrs(fn) {
+			bo, ok := ia.In.(*ssa.BinOp)
+			if !ok {
+				continue
+			}
+			for _, pair := range [][2]ssa.Value{{bo.X, bo.Y}, {bo.Y, bo.X}} {
+				if p, ok := pair[0].(*ssa.Parameter); ok && namedTypeName(p.Type()) == "Revision" {
+					if _, isC := pair[1].(*ssa.Const); isC {
+						bad = c.posStr(instrPos(bo))
+					}
+				}
+			}
+		}
+		r.checkP([]string{"C03"}, bad == "", c.fnName(fn)+"|every guard revision is compared", c.posStr(fn.Pos()), "the caller's revision reaches the write primitive without a special value", "the caller's guard revision is compared with a constant ("+bad+"): some revision value switches the comparison off")
+	}
 	for _, name := range []string{"modify", "delete"} {
 		fn := c.Func("statedb", "writeTxnState", name)
 		if fn == nil {
@@ -534,20 +638,46 @@ func ruleRevert(c *Ctx, r *Reporter) {
 		okCmp := false
 		var cmpPos token.Pos = fn.Pos()
 		guard := fn.Params[2]
+		// the guard revision: the parameter itself, or the integer field of a guard struct parameter
+		isGuardVal := func(v ssa.Value) bool {
+			if v == ssa.Value(guard) {
+				return true
+			}
+			if addr, ok := isLoad(v); ok {
+				if fa, ok := addr.(*ssa.FieldAddr); ok {
+					if al, ok := fa.X.(*ssa.Alloc); ok {
+						for _, st := range storesTo(fn, al) {
+							if st.Val == ssa.Value(guard) {
+								bt, ok := v.Type().Underlying().(*types.Basic)
+								return ok && bt.Info()&types.IsInteger != 0
+							}
+						}
+					}
+				}
+			}
+			if fl, ok := v.(*ssa.Field); ok && fl.X == ssa.Value(guard) {
+				bt, ok := v.Type().Underlying().(*types.Basic)
+				return ok && bt.Info()&types.IsInteger != 0
+			}
+			return false
+		}
+		sentinel := ""
 		for _, ia := range allInstrs(fn) {
 			bo, ok := ia.In.(*ssa.BinOp)
 			if !ok {
 				continue
 			}
-			if bo.Y != ssa.Value(guard) && bo.X != ssa.Value(guard) {
+			if !isGuardVal(bo.X) && !isGuardVal(bo.Y) {
 				continue
 			}
 			other := bo.X
-			if bo.X == ssa.Value(guard) {
+			if isGuardVal(bo.X) {
 				other = bo.Y
 			}
 			if _, isC := other.(*ssa.Const); isC {
-				continue // guardRevision > 0
+				// the caller's revision value doubles as the "no guard" flag
+				sentinel = c.posStr(instrPos(bo))
+				continue
 			}
 			cmpPos = bo.Pos()
 			isRevLoad := false
@@ -570,6 +700,9 @@ func ruleRevert(c *Ctx, r *Reporter) {
 				break
 			}
 		}
+		r.checkP([]string{"C03"}, sentinel == "", fnn+"|guard revision is not also the 'no guard' flag", c.posStr(fn.Pos()),
+			"whether a write is guarded is carried separately from the guard revision",
+			"the guard revision is compared with a constant ("+sentinel+") to decide whether the write is guarded at all: a caller of CompareAndSwap/CompareAndDelete passing that value (revision 0, as Get returns for a missing object) gets an unguarded Insert/Delete instead of ErrObjectNotFound/ErrRevisionNotEqual")
 		r.checkP([]string{"C03"}, okCmp, fnn+"|guard is exact inequality", c.posStr(cmpPos),
 			"the compare-and-* rejection test is `object.revision != guardRevision`",
 			"the compare-and-* guard is not an exact inequality between the stored object's revision and the guard revision: some mismatching guards are accepted (or matching ones rejected)")
